@@ -5,7 +5,7 @@ From Coq Require Import QArith Qminmax Qabs.
 From CV Require Import Geom.Matrix.
 Open Scope Q_scope.
 
-(* path.go:1052 *)
+(* path.go:1049 *)
 Definition g_FastBounds_line (v_start v_end : qpt) (v_xmin v_xmax v_ymin v_ymax : Q) (d1 d2 d3 d4 d5 d6 : Q) : qpt * (Q * Q * Q * Q) :=
   let v_end := (d1, d2) in
   let v_xmin := (Qmin v_xmin (fst v_end)) in
@@ -14,7 +14,7 @@ Definition g_FastBounds_line (v_start v_end : qpt) (v_xmin v_xmax v_ymin v_ymax 
   let v_ymax := (Qmax v_ymax (snd v_end)) in
   (v_end, (v_xmin, v_xmax, v_ymin, v_ymax)).
 
-(* path.go:1058 *)
+(* path.go:1055 *)
 Definition g_FastBounds_quad (v_start v_end : qpt) (v_xmin v_xmax v_ymin v_ymax : Q) (d1 d2 d3 d4 d5 d6 : Q) : qpt * (Q * Q * Q * Q) :=
   let v_cp := (d1, d2) in
   let v_end := (d3, d4) in
@@ -24,7 +24,7 @@ Definition g_FastBounds_quad (v_start v_end : qpt) (v_xmin v_xmax v_ymin v_ymax 
   let v_ymax := (Qmax v_ymax (Qmax (snd v_cp) (snd v_end))) in
   (v_end, (v_xmin, v_xmax, v_ymin, v_ymax)).
 
-(* path.go:1065 *)
+(* path.go:1062 *)
 Definition g_FastBounds_cube (v_start v_end : qpt) (v_xmin v_xmax v_ymin v_ymax : Q) (d1 d2 d3 d4 d5 d6 : Q) : qpt * (Q * Q * Q * Q) :=
   let v_cp1 := (d1, d2) in
   let v_cp2 := (d3, d4) in
